@@ -217,6 +217,11 @@ class HDFOutput(Output):
                 else:
                     array.add_property(prop_name, type=type_, default=default,
                                        stride=stride)
+            if 'output_property_arrays' in arrays_grp.attrs:
+                output_array = [
+                    _to_str(x)
+                    for x in arrays_grp.attrs['output_property_arrays']
+                ]
             array.set_output_arrays(output_array)
             particles[str(name)] = array
         return particles
@@ -249,6 +254,9 @@ class HDFOutput(Output):
 
     def _set_properties(self, pdata, ptype_grp, data):
         c_kw = self._get_compress_options()
+        ptype_grp.attrs['output_property_arrays'] = numpy.array(
+            pdata.get('output_property_arrays', []), dtype='S'
+        )
         for propname, attributes in pdata['properties'].items():
             if propname in data:
                 array = data[propname]
